@@ -93,6 +93,73 @@ theorem keyword_matches_containing_names (p name : Str) (hp : p.all acValid = tr
   · rintro ⟨_, x, y, h⟩; exact ⟨x, y, h.symm⟩
   · rintro ⟨x, y, h⟩; exact ⟨hne, x, y, h.symm⟩
 
+/-- **keyword, anchored forms included.** What the code looks up (the keyword inside `^name$`, via the
+Aho-Corasick library, trusted as substring search) is the documented meaning `kwMeaning`, which is
+stated independently of the sentinel trick: for every keyword over the library's alphabet and every
+name of the property's alphabet. -/
+theorem keyword_lookup_eq_meaning (p name : Str) (hp : p.all acValid = true) (hn : plainName name = true) :
+    acContains (normKeyword p) (cHat :: normName name ++ [cDollar]) = kwMeaning p (normName name) := by
+  have hd := plainDom_normName name hn
+  unfold acContains
+  rw [hd.map_acNorm]
+  simp only [normKeyword, hp, ↓reduceIte, List.any_cons, List.any_nil, Bool.or_false]
+  by_cases hne : p = []
+  · subst hne; simp [kwMeaning]
+  · have : p.isEmpty = false := by cases p <;> simp_all
+    rw [this, infix_sentinels_eq_kwMeaning p _ hd.noMarkers hne]; simp
+
+/-- `^k`: the name starts with `k` -/
+theorem keyword_start_anchor (k dom : Str) (hk : NoMarkers k) :
+    kwMeaning (cHat :: k) dom = true ↔ k <+: dom := by
+  have hm : k.any isMarker = false := noMarker_of_subset hk (fun _ h => h)
+  have hz : (k.getLast? == some cDollar) = false := by
+    simp only [beq_eq_false_iff_ne]
+    exact getLast?_ne_of_not_mem (fun h => (hk _ h).2 rfl)
+  simp [kwMeaning, hz, hm, List.isPrefixOf_iff_prefix]
+
+/-- `k$`: the name ends with `k` -/
+theorem keyword_end_anchor (k dom : Str) (hk : NoMarkers k) :
+    kwMeaning (k ++ [cDollar]) dom = true ↔ k <:+ dom := by
+  have hm : k.any isMarker = false := noMarker_of_subset hk (fun _ h => h)
+  have ha : ((k ++ [cDollar]).head? == some cHat) = false := by
+    cases k with
+    | nil => decide
+    | cons c k => simp only [List.cons_append, List.head?_cons, beq_eq_false_iff_ne]
+                  intro h; exact (hk c (by simp)).1 (Option.some.inj h)
+  have hne : (k ++ [cDollar]).isEmpty = false := by cases k <;> simp
+  unfold kwMeaning
+  simp only [hne, Bool.false_eq_true, ↓reduceIte, ha, List.getLast?_concat, beq_self_eq_true,
+    List.dropLast_concat, hm, List.isSuffixOf_iff_suffix]
+
+/-- `^k$`: the name is `k` -/
+theorem keyword_both_anchors (k dom : Str) (hk : NoMarkers k) :
+    kwMeaning (cHat :: k ++ [cDollar]) dom = true ↔ dom = k := by
+  have hm : k.any isMarker = false := noMarker_of_subset hk (fun _ h => h)
+  simp [kwMeaning, hm]
+
+/-- plain `k`: the name contains `k` -/
+theorem keyword_plain (k dom : Str) (hk : NoMarkers k) (hne : k ≠ []) :
+    kwMeaning k dom = true ↔ ∃ x y, dom = x ++ k ++ y := by
+  have hm : k.any isMarker = false := noMarker_of_subset hk (fun _ h => h)
+  have ha : (k.head? == some cHat) = false := by
+    cases k with
+    | nil => exact absurd rfl hne
+    | cons c k => simp only [List.head?_cons, beq_eq_false_iff_ne]
+                  intro h; exact (hk c (by simp)).1 (Option.some.inj h)
+  have hz : (k.getLast? == some cDollar) = false := by
+    simp only [beq_eq_false_iff_ne]
+    exact getLast?_ne_of_not_mem (fun h => (hk _ h).2 rfl)
+  have hemp : k.isEmpty = false := by cases k <;> simp_all
+  simp only [kwMeaning, hemp, ha, hz, hm, Bool.false_eq_true, ↓reduceIte, isInfix_iff]
+  constructor
+  · rintro ⟨x, y, h⟩; exact ⟨x, y, h.symm⟩
+  · rintro ⟨x, y, h⟩; exact ⟨x, y, h.symm⟩
+
+/-- a keyword with `^`/`$` anywhere else never matches a name of the property's alphabet -/
+example : kwMeaning (strOf "a^b") (strOf "a^b") = false ∧ kwMeaning (strOf "^goog") (strOf "google.com") = true ∧
+    kwMeaning (strOf "^goog") (strOf "agoogle.com") = false ∧ kwMeaning (strOf "com$") (strOf "a.com") = true ∧
+    kwMeaning (strOf "com$") (strOf "a.com.cn") = false ∧ kwMeaning (strOf "^") (strOf "x") = true := by decide
+
 theorem empty_keyword_never_matches (input : Str) : acContains (normKeyword []) input = false := by
   simp [acContains, normKeyword]
 
